@@ -119,6 +119,33 @@ func buildIntrinsics() map[string]Intrinsic {
 			m.addPC(m.tf.Eq(v, c))
 			return c
 		}
+		t[p+"vString"] = func(m *Machine, fr *Frame, fn *ssa.Function, a []Value) Value {
+			return &SmtStr{T: m.newStrInput(m.str(a[0]))}
+		}
+		t[p+"vUFStr"] = func(m *Machine, fr *Frame, fn *ssa.Function, a []Value) Value {
+			// reference-side application of the same uninterpreted function the engine uses for a stubbed stdlib function
+			name := m.str(a[0])
+			if s, ok := a[1].(string); ok {
+				switch name {
+				case "sha1":
+					return string(sha1Sum([]byte(s)))
+				case "b64":
+					return b64Encode([]byte(s))
+				}
+			}
+			return m.mkSmt(m.uf(WString, name, m.strTerm(a[1])))
+		}
+		t[p+"vUFBool"] = func(m *Machine, fr *Frame, fn *ssa.Function, a []Value) Value {
+			var args []*Term
+			for _, x := range a[1].([]Value) {
+				args = append(args, m.strTerm(x))
+			}
+			return m.uf(0, m.str(a[0]), args...)
+		}
+		t[p+"vStrIsSymbolic"] = func(m *Machine, fr *Frame, fn *ssa.Function, a []Value) Value {
+			_, ok := a[0].(*SmtStr)
+			return m.tf.Bool(ok)
+		}
 		t[p+"vParam"] = func(m *Machine, fr *Frame, fn *ssa.Function, a []Value) Value {
 			name := m.str(a[0])
 			if v, ok := m.cfg.Params[name]; ok {
@@ -359,6 +386,8 @@ func buildIntrinsics() map[string]Intrinsic {
 	addBytealgIntrinsics(t)
 	addMiscIntrinsics(t)
 	addStubIntrinsics(t)
+	addStringIntrinsics(t)
+	addHashIntrinsics(t)
 	return t
 }
 
@@ -983,6 +1012,14 @@ func (m *Machine) sample(v Value) Value {
 			b[i] = byte(m.sample(t).(*Term).Val)
 		}
 		return string(b)
+	case *SmtStr:
+		m.flushPC()
+		vd, val := m.solver.StrValueOf(v.T)
+		if vd != VSat {
+			return "?"
+		}
+		m.res.Stubs["fmt: symbolic operand rendered with a representative value"]++
+		return val
 	case StructV:
 		r := make(StructV, len(v))
 		for i, x := range v {
